@@ -1058,11 +1058,46 @@ fn res<T>(r: Result<T, sqldatetime::Error>) -> &'static str {
         }
         Err(e) => {
             let n = err_name(&e);
+            render_error(&e);
             // dropping the error frees its message; fine while armed (dealloc is never refused)
             drop(e);
             n
         }
     }
+}
+
+/// A sink of the harness's own for rendering errors: counts, and can refuse from write `fail_at` on.
+/// (Not the pass's FaultySink: the fault map of the call under test stays what it was.)
+struct ErrSink {
+    writes: usize,
+    bytes: usize,
+    fail_at: usize,
+}
+impl std::fmt::Write for ErrSink {
+    fn write_str(&mut self, s: &str) -> std::fmt::Result {
+        if self.writes >= self.fail_at {
+            return Err(std::fmt::Error);
+        }
+        self.writes += 1;
+        self.bytes += s.len();
+        Ok(())
+    }
+}
+
+/// The crate's `Error` is a public type and its `Display`, `Debug`, `source` and `==` are safe public
+/// functions: every error any pass produces is rendered — into a sink that takes everything, one
+/// that refuses the first write and one that refuses the second — and compared with itself.
+fn render_error(e: &sqldatetime::Error) {
+    for fail_at in [usize::MAX, 0, 1] {
+        let mut s = ErrSink { writes: 0, bytes: 0, fail_at };
+        let _ = write!(s, "{}", e);
+        let _ = write!(s, "{:?}", e);
+        let _ = write!(s, "{:#?}", e);
+        let _ = write!(s, "{:>8.3}|{:<300}", e, e);
+        bb(s.bytes);
+    }
+    bb(std::error::Error::source(e).is_some());
+    bb(e == e);
 }
 
 /// Executes the call against the library. Everything the harness itself needs
@@ -1092,7 +1127,20 @@ pub fn execute(call: &Call, tables: &Tables, vals: Option<&Vals>, sink: &mut Fau
                 _ => "not-a-call",
             }
         }
-        Call::TryNew { pic } => res(Formatter::try_new(pic)),
+        Call::TryNew { pic } => match Formatter::try_new(pic) {
+            // `Formatter` is `Debug`: printing one (`{:?}`, `dbg!`, a log line) is a public function too
+            Ok(f) => {
+                let r = write!(sink, "{:?}", f);
+                let mut own = ErrSink { writes: 0, bytes: 0, fail_at: usize::MAX };
+                let _ = write!(own, "{:#?}", f);
+                bb((&f, own.bytes));
+                match r {
+                    Ok(()) => "ok",
+                    Err(_) => "fmt::Error",
+                }
+            }
+            Err(e) => res::<()>(Err(e)),
+        },
         Call::Parse { ty, text, pic, via_formatter } => {
             macro_rules! p {
                 ($t:ty) => {
@@ -1573,6 +1621,19 @@ fn gen_text_plain(rng: &mut Rng, ty: Ty, pic: &str) -> String {
         }
         10..=14 => small_text(rng),
         15 => String::new(),
+        16 if rng.chance(1, 2) => {
+            // a text that starts like a valid one and goes on in another script for a few hundred
+            // bytes: whatever echoes, clips or scans the input by byte position (in the parser, in an
+            // error message, in the error's own Display) meets a multi-byte character at every offset
+            let head: Vec<char> = rendered(ty, draw_value(rng, ty), pic).unwrap_or_default().chars().collect();
+            let cut = rng.usize_below(head.len() + 1);
+            let mut t: String = head[..cut].iter().collect();
+            t.push_str(&"x".repeat(rng.usize_below(4)));
+            let unit = *rng.pick(&["é", "ß", "日", "😀"]);
+            let reps = *rng.pick(&[20usize, 40, 64, 100, 128, 130, 200, 256, 300, 600]) + rng.usize_below(3);
+            t.push_str(&unit.repeat(reps));
+            t
+        }
         16 => {
             let unit = *rng.pick(&["9", " ", "-", "0", "é", "1:", "A", "+"]);
             // "very long": up to a quarter of a million bytes (anything whose stack or buffer use grows
